@@ -1901,6 +1901,7 @@ func lemmaForwardSession(raw *rawEnvelope) (e *Session, e3 *Session, accepted bo
 
 //@ func (*ClientChannel).receiveSessionFromServer
 //@   props C08
+//@   ensures [C08] @closesonterminal step(old(c.state)) < 5 && c.transport.nRecv == old(c.transport.nRecv) + 1 && istype(c.transport.lastRecv, *Session) && (recvSes(c.channel).State == SessionStateFinished || recvSes(c.channel).State == SessionStateFailed) ==> !c.transport.connected  ## whatever else it reports, a client that was answered finished or failed has closed its connection
 //@   ensures err == nil && old(c.state) != SessionStateEstablished && result0.State != SessionStateFinished && result0.State != SessionStateFailed ==> c.transport.connected
 //@   ensures err == nil && result0.State == SessionStateEstablished ==> c.startRcv.fired
 //@   ensures c.startRcv.fired && !old(c.startRcv.fired) ==> step(c.state) >= 3
